@@ -148,6 +148,7 @@ type wire struct {
 	done    <-chan struct{}
 	ctx     context.Context
 	sid     int
+	or      *OResp
 }
 
 func (w *wire) Read(p []byte) (int, error) {
@@ -191,6 +192,9 @@ func (w *wire) Read(p []byte) (int, error) {
 	}
 	n := copy(p, w.data[w.pos:end])
 	w.pos += n
+	if w.pos >= len(w.data) && w.or != nil {
+		w.or.Delivered = true // every byte of the message has been handed to the reader
+	}
 	return n, nil
 }
 
@@ -487,7 +491,10 @@ func (r *Run) compose(g *kit.Gor, call *UpCall, req *http.Request, res, planIdx 
 			body = body[:fat]
 			or.Body, or.Complete = body, true
 		}
-		w := &wire{r: r, data: body, cuts: cutsOf(plan.Chunks, 0, len(body)), lat: time.Duration(plan.ChunkLatNs), fault: bodyFault(plan), faultAt: fat, first: true, done: req.Context().Done(), ctx: req.Context(), sid: sid}
+		w := &wire{r: r, data: body, cuts: cutsOf(plan.Chunks, 0, len(body)), lat: time.Duration(plan.ChunkLatNs), fault: bodyFault(plan), faultAt: fat, first: true, done: req.Context().Done(), ctx: req.Context(), sid: sid, or: or}
+		if !bodyAllowed(req.Method, status) || len(body) == 0 {
+			or.Delivered = true
+		}
 		if !bodyAllowed(req.Method, status) {
 			resp.Body = http.NoBody
 		} else {
@@ -562,7 +569,7 @@ func (r *Run) compose(g *kit.Gor, call *UpCall, req *http.Request, res, planIdx 
 		or.Body = append([]byte(nil), data[hdrLen:]...)
 		or.Complete = true
 	}
-	w := &wire{r: r, data: data, cuts: cutsOf(plan.Chunks, hdrLen, len(data)), lat: time.Duration(plan.ChunkLatNs), fault: bodyFault(plan), faultAt: plan.FaultAt, first: true, done: req.Context().Done(), ctx: req.Context(), sid: sid}
+	w := &wire{r: r, data: data, cuts: cutsOf(plan.Chunks, hdrLen, len(data)), lat: time.Duration(plan.ChunkLatNs), fault: bodyFault(plan), faultAt: plan.FaultAt, first: true, done: req.Context().Done(), ctx: req.Context(), sid: sid, or: or}
 	if w.fault != "" {
 		// FaultAt is relative to the start of the body unless negative (then inside the header block)
 		if plan.FaultAt >= 0 {
